@@ -55,6 +55,7 @@ const (
 	kBytes              // read-only byte string
 	kSl                 // destination slice
 	kStruct
+	kBool
 )
 
 type evar struct {
@@ -100,6 +101,8 @@ type encTr struct {
 	assume   map[string]bool
 	callees  map[string]bool
 	addrVars map[string]string
+	ownMem   bool // no destination argument: the function builds its result in a buffer it allocates with make
+	madeMem  bool
 }
 
 func (t *encTr) emit(format string, a ...interface{}) {
@@ -564,6 +567,9 @@ func (t *encTr) slValue(e ast.Expr, want string) (string, error) {
 
 func (t *encTr) cond(e ast.Expr) (string, error) {
 	e = paren(e)
+	if v, _ := t.obj(e); v != nil && v.kind == kBool {
+		return v.lean + " = true", nil
+	}
 	switch x := e.(type) {
 	case *ast.UnaryExpr:
 		if x.Op == token.NOT {
@@ -695,7 +701,20 @@ func (t *encTr) assign(lhs *ast.Ident, rhs ast.Expr) error {
 				isDst = true
 			}
 			if id, ok := c.Fun.(*ast.Ident); ok && id.Name == "make" {
-				return fail("make: a fresh allocation is outside the single-array memory model")
+				// `b := make([]byte, C)` in a function without a destination argument: the one backing array of
+				// the memory model is this fresh zeroed buffer
+				if !t.ownMem || t.madeMem || len(c.Args) != 2 {
+					return fail("make: a second allocation / an allocation next to a destination argument is outside the single-array memory model")
+				}
+				n, ok := t.constVal(c.Args[1])
+				if !ok {
+					return fail("make with a non-constant length")
+				}
+				t.madeMem = true
+				t.emit("let m : Mem := List.replicate %s 0", n)
+				t.emit("let %s : Sl := ⟨0, %s⟩", leanName(lhs.Name), n)
+				t.bind(lhs, kSl)
+				return nil
 			}
 		}
 		if isDst {
@@ -720,6 +739,20 @@ func (t *encTr) assign(lhs *ast.Ident, rhs ast.Expr) error {
 		}
 		t.emit("let %s : Bytes := %s", leanName(lhs.Name), s)
 		t.bind(lhs, kBytes)
+		return nil
+	case basicKind(ty) == types.Int && isCopyCall(t.info, rhs):
+		c := rhs.(*ast.CallExpr)
+		d, err := t.slValue(c.Args[0], "")
+		if err != nil {
+			return err
+		}
+		src, err := t.bytesVal(c.Args[1])
+		if err != nil {
+			return err
+		}
+		t.emit("let m := poke m %s.off (%s.take %s.len)", d, src, d)
+		t.emit("let %s := min %s.len %s.length", leanName(lhs.Name), d, src)
+		t.bind(lhs, kNat)
 		return nil
 	case basicKind(ty) != types.Invalid && basicKind(ty) != types.String && basicKind(ty) != types.Bool:
 		s, k, err := t.num(rhs)
@@ -760,6 +793,29 @@ func (t *encTr) stmt(s ast.Stmt) error {
 		}
 		return nil
 	case *ast.AssignStmt:
+		if l, ok := x.Lhs[0].(*ast.IndexExpr); ok && len(x.Lhs) == 1 && len(x.Rhs) == 1 && (x.Tok == token.OR_ASSIGN || x.Tok == token.AND_ASSIGN) {
+			// b[i] |= e : read-modify-write of one byte
+			base := t.slOf(l.X)
+			if base == nil {
+				return fail("store into something other than a destination slice")
+			}
+			i, ki, err := t.num(l.Index)
+			if err != nil || ki != kNat {
+				return fail("index of a read-modify-write is not an int")
+			}
+			v, kv, err := t.num(x.Rhs[0])
+			if err != nil {
+				return err
+			}
+			if kv != kU8 {
+				return fail("operand of %s is not a byte", x.Tok)
+			}
+			op := map[token.Token]string{token.OR_ASSIGN: "|||", token.AND_ASSIGN: "&&&"}[x.Tok]
+			r := t.fresh()
+			t.emit("let %s ← %s.get8 m %s", r, base.lean, i)
+			t.emit("let m ← %s.put8 m %s (%s %s %s)", base.lean, i, r, op, v)
+			return nil
+		}
 		if len(x.Lhs) != 1 || len(x.Rhs) != 1 || (x.Tok != token.ASSIGN && x.Tok != token.DEFINE) {
 			return fail("assignment form %s with %d targets", x.Tok, len(x.Lhs))
 		}
@@ -836,6 +892,22 @@ func (t *encTr) stmt(s ast.Stmt) error {
 					return fail("encoding/binary call other than BigEndian.PutUint16")
 				}
 				sl, ok := paren(c.Args[0]).(*ast.SliceExpr)
+				if ok && sl.Low != nil && sl.High == nil && !sl.Slice3 && t.slOf(sl.X) != nil {
+					// PutUint16(b[e:], v): the window is b[e:len]; PutUint16 panics unless it holds two bytes
+					lo, k, err := t.num(sl.Low)
+					if err != nil || k != kNat {
+						return fail("PutUint16 window offset is not an int")
+					}
+					v, k, err := t.num(c.Args[1])
+					if err != nil {
+						return err
+					}
+					if k != kNat {
+						v += ".toNat"
+					}
+					t.emit("let m ← %s.put16From m %s %s", t.slOf(sl.X).lean, lo, v)
+					return nil
+				}
 				if !ok || sl.Low == nil || sl.High == nil {
 					return fail("PutUint16 destination is not b[a:a+2]")
 				}
@@ -863,6 +935,33 @@ func (t *encTr) stmt(s ast.Stmt) error {
 		}
 		return fail("call statement %s", exprStr(c.Fun))
 	case *ast.IfStmt:
+		if x.Init == nil && x.Else == nil && len(x.Body.List) >= 1 {
+			all := true
+			for _, b := range x.Body.List {
+				all = all && isStore(t.info, b)
+			}
+			if all {
+				// `if c { stores }`: the memory after the statement is the stored-into memory or the old one
+				c, err := t.cond(x.Cond)
+				if err != nil {
+					return err
+				}
+				saved, ind := t.lines, t.indent
+				t.lines, t.indent = nil, ind+"  "
+				for _, b := range x.Body.List {
+					if err := t.stmt(b); err != nil {
+						t.lines, t.indent = saved, ind
+						return err
+					}
+				}
+				body := t.lines
+				t.lines, t.indent = saved, ind
+				t.emit("let m ← (if %s then (do", c)
+				t.lines = append(t.lines, body...)
+				t.emit("  pure m) else pure m)")
+				return nil
+			}
+		}
 		if x.Init != nil || x.Else != nil || len(x.Body.List) != 1 {
 			return fail("if statement with init/else or a body of %d statements", len(x.Body.List))
 		}
@@ -940,6 +1039,40 @@ func (t *encTr) stmt(s ast.Stmt) error {
 		return nil
 	}
 	return fail("statement form %T", s)
+}
+
+func isCopyCall(info *types.Info, e ast.Expr) bool {
+	c, ok := paren(e).(*ast.CallExpr)
+	if !ok || len(c.Args) != 2 {
+		return false
+	}
+	id, ok := c.Fun.(*ast.Ident)
+	if !ok || id.Name != "copy" {
+		return false
+	}
+	_, isB := info.Uses[id].(*types.Builtin)
+	return isB
+}
+
+// isStore: a statement that only writes memory (allowed inside `if c { … }` without else)
+func isStore(info *types.Info, s ast.Stmt) bool {
+	switch x := s.(type) {
+	case *ast.AssignStmt:
+		if len(x.Lhs) == 1 {
+			_, ok := x.Lhs[0].(*ast.IndexExpr)
+			return ok
+		}
+	case *ast.ExprStmt:
+		if isCopyCall(info, x.X) {
+			return true
+		}
+		if c, ok := x.X.(*ast.CallExpr); ok {
+			if sel, ok := c.Fun.(*ast.SelectorExpr); ok && sel.Sel.Name == "PutUint16" {
+				return true
+			}
+		}
+	}
+	return false
 }
 
 // writtenSlices: identifiers of byte-slice type that are stored into, re-sliced, copied into or returned.
@@ -1033,6 +1166,9 @@ func translateEncoder(p *packages.Package, fd *ast.FuncDecl, name string, addrVa
 		case isByteSlice(ty) || isNetipAddr(ty):
 			t.env[v] = &evar{kBytes, ln}
 			params = append(params, fmt.Sprintf("(%s : Bytes)", ln))
+		case basicKind(ty) == types.Bool:
+			t.env[v] = &evar{kBool, ln}
+			params = append(params, fmt.Sprintf("(%s : Bool)", ln))
 		case basicKind(ty) == types.Uint8:
 			t.env[v] = &evar{kU8, ln}
 			params = append(params, fmt.Sprintf("(%s : UInt8)", ln))
@@ -1071,6 +1207,15 @@ func translateEncoder(p *packages.Package, fd *ast.FuncDecl, name string, addrVa
 			return res
 		}
 	}
+	t.ownMem = true
+	for _, v := range t.env {
+		if v.kind == kSl {
+			t.ownMem = false
+		}
+	}
+	if t.ownMem {
+		params = params[1:]
+	}
 	t.results = sig.Results().Len()
 	if t.results < 1 || t.results > 2 || !isByteSlice(sig.Results().At(0).Type()) {
 		res.err = fail("result list %v", sig.Results())
@@ -1099,6 +1244,10 @@ func translateEncoder(p *packages.Package, fd *ast.FuncDecl, name string, addrVa
 	}
 	if !t.done {
 		res.err = fail("body does not end in return")
+		return res
+	}
+	if t.ownMem && !t.madeMem {
+		res.err = fail("no destination argument and no make([]byte, n)")
 		return res
 	}
 	rt := "Sl"
@@ -1167,7 +1316,7 @@ func encoderFacts(p *packages.Package, b *strings.Builder) {
 			if !ok || fd.Body == nil || !fd.Name.IsExported() {
 				continue
 			}
-			if fd.Recv == nil && strings.HasPrefix(fd.Name.Name, "Encode") {
+			if fd.Recv == nil && (strings.HasPrefix(fd.Name.Name, "Encode") || strings.HasSuffix(fd.Name.Name, "Marshal")) {
 				cs = append(cs, cand{fd.Name.Name, fd})
 			}
 			if fd.Recv != nil && len(fd.Recv.List) == 1 && (fd.Name.Name == "SetPayload" || fd.Name.Name == "AppendPayload") {
